@@ -2,7 +2,7 @@
 # seedrun.sh <seed-dir> [prop] [tier] : apply a seeded change to /repo, run the property's check, undo the change.
 SD="$(cd "$1" && pwd)"; PROP="${2:-$(basename "$SD" | cut -d- -f1)}"; TIER="${3:-quick}"
 [ -z "$(git -C /repo status --porcelain)" ] || { echo "/repo is dirty: commit first"; exit 2; }
-cd /repo && git apply "$SD/patch.diff" || { echo "patch does not apply"; exit 2; }
+P="$SD/patch.diff"; [ -f "$SD/patch_on_fixed_tree.diff" ] && P="$SD/patch_on_fixed_tree.diff"; cd /repo && git apply --ignore-whitespace "$P" || { echo "patch does not apply"; exit 2; }
 cd /verif && GOVC_NOEVIDENCE=1 GOVC_REPLAYDIR=/tmp/govc-seed-replays ./check "$PROP" "$TIER"; rc=$?
 cd /repo && git checkout -- . 
 echo "seedrun $(basename $SD) prop=$PROP rc=$rc"
